@@ -137,7 +137,7 @@ def c16_2(R):
             a = trace(cr, t.args[0])
             if a.kind == "call" and "Add" in (a.root[1].callee or ""):
                 x, y = trace(cr, a.root[1].args[0]), trace(cr, a.root[1].args[1])
-                if x.kind == "param" and x.root[2] == "srtt" and y.kind == "call" and call_matches(y.root[1], ("Ord::max",)):
+                if x.kind == "param" and x.root[1] == 1 and y.kind == "call" and call_matches(y.root[1], ("Ord::max",)):
                     m = trace(cr, y.root[1].args[0])
                     g = y.root[1].args[1]
                     if m.kind == "call" and "Mul" in (m.root[1].callee or "") and trace(cr, m.root[1].args[0]).kind == "param" and m.root[1].args[1].const_item == "rtte::K" and g.const_item == "rtte::CLOCK_GRANULARITY":
